@@ -1,5 +1,47 @@
-import TshVerif.Model.Lexer
+/-
+  C13 - Transpilation is total: a script or an error, never a crash or a hang.
+  Proved here: the lexer part (for every byte string the lexer model returns tokens or an error within
+  `length src` iterations; every iteration consumes input), the shape of its result (the token list
+  always ends in EOF, so the parser's look-ahead never runs past a missing end marker), and that
+  every error message literal of the code base is non-empty (re-extracted from the source).
+  The parser and emitter parts are decided by the error-class correspondence and the crash/hang
+  oracle of the check (DESIGN.md, C13).
+-/
+import TshVerif.Props.C11
+import TshVerif.Generated.Facts
 namespace Tsh.C13
-open Tsh Tsh.Lexer
+open Tsh Tsh.Lexer Tsh.LexTables
+
+/-- **The lexer terminates on every input** (it needs at most one iteration per byte). -/
+theorem lex_never_diverges (src : Bytes) : tokenize src ≠ .diverge := (C11.lex_total src).2
+
+/-- the lexer returns either tokens or an error -- there is no third outcome -/
+theorem lex_tokens_or_error (src : Bytes) : (∃ ts, tokenize src = .ok ts) ∨ tokenize src = .err := by
+  cases h : tokenize src with
+  | ok ts => exact Or.inl ⟨ts, rfl⟩
+  | err => exact Or.inr rfl
+  | diverge => exact absurd h (lex_never_diverges src)
+
+/-- every iteration of the lexer loop consumes at least one byte (the termination measure) -/
+theorem lex_progress {last : Nat} {s : Bytes} {ty : Nat} {val rest : Bytes}
+    (h : step last s = .tok ty val rest) : rest.length < s.length := C11.step_nonempty h
+
+/-- a successful lexer run always ends in exactly one EOF token -/
+theorem tokens_end_with_eof (src : Bytes) (ts : List Token) (h : tokenize src = .ok ts) :
+    ∃ (init : List Token) (p : Nat × Nat), ts = init ++ [{ ty := TT_EOF, val := [], row := p.1, col := p.2 }] := by
+  unfold tokenize at h
+  split at h
+  · rename_i ls pos _
+    simp at h
+    exact ⟨_, pos, h.symm⟩
+  · simp at h
+  · simp at h
+
+/-- **An error is never empty**: every message / format literal passed to `errors.New`, `fmt.Errorf`,
+    `atError`, `expectedError`, `expectedKeywordError` anywhere in the non-test source is non-empty
+    (lengths re-extracted on every run). -/
+theorem errors_nonempty : Facts.errorFormatLengths.all (fun n => decide (0 < n)) = true := by decide +kernel
+
+theorem error_literals_counted : Facts.errorFormats.length = Facts.errorFormatLengths.length := by decide +kernel
 
 end Tsh.C13
